@@ -94,6 +94,8 @@ type CaseB struct {
 	B     []string   `json:"b,omitempty"`     // keys defined in data/b.yml
 	Pages [][]string `json:"pages"`           // keys defined in the front-matter of p0, p1, p2
 	NoCfg bool       `json:"nocfg,omitempty"` // the filesystem has no theme.yml and no data/ directory
+	Bad   []string   `json:"bad,omitempty"`   // non-mapping config files (see badFiles) next to the real ones
+	Pad   int        `json:"pad,omitempty"`   // every front-matter block also carries a neighbour line of this many characters
 	Store string     `json:"store,omitempty"` // "" one filesystem | an OverlayFS layout, see stores
 	Ext   string     `json:"ext,omitempty"`   // names of the two data files, see dataNames (A = the earlier name, B = the later one)
 	Pool  [][]string `json:"pool,omitempty"`  // keys of each shared caller map (values M<j><key>)
@@ -188,6 +190,11 @@ func (c CaseB) files() map[string]string {
 		daName, dbName, _ := dataNames(c.Ext)
 		f[daName] = a.String() + "onlya: x\n"
 		f[dbName] = bb.String() + "onlyb: x\n"
+		for _, b := range c.Bad {
+			if bf, ok := badFiles[b]; ok && b != "theme" {
+				f[bf[0]] = bf[1]
+			}
+		}
 	}
 	body := c.body()
 	for i := 0; i < nPages; i++ {
@@ -198,6 +205,9 @@ func (c CaseB) files() map[string]string {
 			}
 		}
 		if fm != "" {
+			if c.Pad > 0 && c.Pad <= 200000 {
+				fm = "zpad: " + strings.Repeat("p", c.Pad) + "\n" + fm
+			}
 			fm = "---\n" + fm + "---\n"
 		}
 		f[fmt.Sprintf("p%d.vuego", i)] = fm + body
@@ -673,6 +683,14 @@ func genHistory(t *rapid.T, rec *ev.Rec, avoidFM bool) CaseB {
 	c.NoCfg = rapid.Bool().Draw(t, "nocfg")
 	c.Ext = rapid.SampledFrom(append([]string{""}, exts...)).Draw(t, "data-file-names")
 	c.Store = rapid.SampledFrom(append([]string{"", ""}, stores...)).Draw(t, "store")
+	c.Pad = rapid.SampledFrom([]int{0, 0, 0, 100, 4000, 5000, 9000}).Draw(t, "front-matter-pad")
+	if c.Ext == "" && !c.NoCfg {
+		for _, b := range []string{"before-list", "between-scalar", "after-broken", "before-dupkeys"} {
+			if rapid.IntRange(0, 3).Draw(t, "bad-"+b) == 0 {
+				c.Bad = append(c.Bad, b)
+			}
+		}
+	}
 	if c.NoCfg {
 		c.A, c.B, c.Ext = nil, nil, ""
 	}
@@ -839,6 +857,9 @@ func classifyB(c CaseB) (bool, []string) {
 		cls["no-config-files"] = true
 	} else {
 		cls["with-config-files"] = true
+		if len(c.Bad) > 0 {
+			cls["with-non-mapping-config-files"] = true
+		}
 		if c.Store != "" {
 			cls["store=overlay/"+c.Store] = true
 		} else {
@@ -854,6 +875,9 @@ func classifyB(c CaseB) (bool, []string) {
 				cls["both-data-files-define-a-key,extensions-differ"] = true
 			}
 		}
+	}
+	if c.Pad > 4096 {
+		cls["front-matter-line>4096"] = true
 	}
 	plain := true
 	for _, p := range c.Pages {
